@@ -1,14 +1,27 @@
 /* Unit express_c: src/express/express.c compiled unmodified (Route C) */
 #include <stdio.h>
+#include <stdarg.h>
 #include <stdlib.h>
 #include <string.h>
 #include <ctype.h>
 #include "verif.h"
 #include "express/scope.h"   /* first inclusion must be the rewritten copy (union -> struct), see unit.json */
-static FILE verif_file; static FILE *verif_fopen(const char *p, const char *m) { (void)p; (void)m; return &verif_file; }
+static int g_fopen_fails; static FILE verif_file; static FILE *verif_fopen(const char *p, const char *m) { (void)p; (void)m; return g_fopen_fails ? 0 : &verif_file; }
 #define fopen verif_fopen
+/* sprintf model for the formats of express.c that matter here: "%s.exp" and "%s" copy the string (and the suffix), every write bounds-checked by cbmc */
+static int g_sprintf_model;
+static int verif_sprintf(char *d, const char *fmt, ...)
+{
+    if (!g_sprintf_model) return 0;
+    va_list ap; va_start(ap, fmt); const char *s = va_arg(ap, const char *); va_end(ap);
+    int k = 0; for (int i = 0; i < 310 && s[i]; i++) d[k++] = s[i];
+    if (!strcmp(fmt, "%s.exp")) { d[k++] = '.'; d[k++] = 'e'; d[k++] = 'x'; d[k++] = 'p'; }
+    d[k] = 0; return k;
+}
+#define sprintf verif_sprintf
 #include "src/express/express.c"
 #undef fopen
+#undef sprintf
 
 /* ---- scanner / parser entry points (stubs) ---- */
 char *g_lex_filename; int g_lex_calls;
@@ -21,8 +34,8 @@ void perplexFree(perplex_t s) { (void)s; }
 int yylex(perplex_t s) { (void)s; return 0; }
 void parserInitState(void) { }
 YYSTYPE yylval; int yyerrstatus; Express yyexpresult;
-int g_lookup_calls; static struct Scope_ found_schema;
-void *DICTlookup(Dictionary d, char *n) { (void)d; (void)n; g_lookup_calls++; return g_lookup_calls >= 2 ? &found_schema : 0; }
+int g_lookup_calls, g_lookup_never; static struct Scope_ found_schema;
+void *DICTlookup(Dictionary d, char *n) { (void)d; (void)n; g_lookup_calls++; return (!g_lookup_never && g_lookup_calls >= 2) ? &found_schema : 0; }
 /* SCANstrdup (lexact.c, decided in unit lexact_c/h_case_and_dup): a fresh copy of the string */
 char *SCANstrdup(const char *s) { size_t n = strlen(s); char *r = malloc(n + 1); if (r) { for (size_t i = 0; i <= n; i++) r[i] = s[i]; } return r; }
 
